@@ -18,7 +18,8 @@ VARIABLES shard, phase
 vars == <<shard, phase>>
 
 Hops == IF Thorough THEN {0, 1, 7, 30} ELSE {0, 7}
-Msss == IF Thorough THEN {536, 1220, 1460, 8960} ELSE {1460}
+\* MSS values for signatures that leave it open; below 100 the code keeps the window as a raw value and consults the MSS only when matching
+Msss == IF Thorough THEN {88, 96, 99, 100, 536, 1220, 1460, 8960} ELSE {88, 1460}
 Scs  == IF Thorough THEN {0, 1, 7, 13, 14} ELSE {7, 14}
 ChoiceGrid == {[ver |-> v, hop |-> h, m |-> m, sc |-> s, ecnip |-> e, pl |-> p] :
               v \in {4, 6}, h \in Hops, m \in Msss, s \in Scs, e \in BOOLEAN, p \in BOOLEAN}
